@@ -21,7 +21,7 @@ func init() {
 	Registry["C11"] = Spec{
 		Run: runC11, Workers: 16, GOMAXPROCS: 4,
 		QuickTimeout: 6 * time.Minute, ThoroughTimeout: 30 * time.Minute,
-		QuickFloor: 300, ThoroughFloor: 5000,
+		QuickFloor: 2000, ThoroughFloor: 40000,
 		RequiredCounters: []string{"promise_histories_linearizable", "single_winner_checked", "awaits_judged", "container_awaits_judged", "container_quiescent_judgements", "sentinel_error_results", "gated_templates", "PromiseSetMid"},
 		Rule: "cases: (a) 1-6 concurrent SetResult callers and 1-8 awaiters of the three kinds on one Promise, with contexts, cancel channels and error channels firing at random points; single-winner and by-result agreement are checked and the history is given to porcupine (single-assignment cell); " +
 			"(b) a gated template holding the winning SetResult between its flag swap and its channel close; (c) PromiseContainer replacement chains (SetPromise p1/nil/p2, SetResult) against awaiters, judged per return against the intervals in which each promise was current and resolved, and at quiescence; spinning is decided by counting critical sections of the container's Broadcast; " +
@@ -31,7 +31,7 @@ func init() {
 	Registry["C16"] = Spec{
 		Run: runC16, Workers: 16, GOMAXPROCS: 4,
 		QuickTimeout: 6 * time.Minute, ThoroughTimeout: 30 * time.Minute,
-		QuickFloor: 300, ThoroughFloor: 5000,
+		QuickFloor: 2000, ThoroughFloor: 40000,
 		RequiredCounters: []string{"once_cases_judged", "function_calls_observed", "retry_after_error", "caller_cancelled_while_waiting", "memo_cases_judged", "OnceLock"},
 		Rule: "each case runs 2-10 concurrent Resolve callers on one promise.Once whose function has a scripted outcome per call (success with a unique value, unique error, block until its context is cancelled or the case ends) and a scripted latency, with caller contexts cancelled at random points (including the initiator's while the function runs); " +
 			"memo cases run 2-10 concurrent callers of one MemoizeFunc; non-trivial = a caller was cancelled while another waited, or an error was followed by a retry; distinct = distinct event orders",
@@ -59,14 +59,14 @@ func runC11(w *mon.Worker) {
 	mon.SetMaxSleep(120 * time.Microsecond)
 	mon.SetProb(0.3, verifhook.PromiseSetMid)
 	mon.SetProb(0.2, verifhook.BcastEnter, verifhook.BcastExit)
-	for i := 0; i < w.Share(w.Scale(3200, 100000)); i++ {
+	for i := 0; i < w.Share(w.Scale(8000, 200000)); i++ {
 		w.Case("promise-race", nil, promiseRaceCase)
 	}
-	for i := 0; i < w.Share(w.Scale(2400, 80000)); i++ {
+	for i := 0; i < w.Share(w.Scale(8000, 200000)); i++ {
 		w.Case("container", nil, containerCase)
 	}
 	mon.ClearProb()
-	for i := 0; i < w.Share(w.Scale(320, 8000)); i++ {
+	for i := 0; i < w.Share(w.Scale(800, 16000)); i++ {
 		w.Case("promise-gated", nil, promiseGatedCase)
 	}
 }
@@ -609,10 +609,10 @@ func containerCase(c *mon.Case) {
 func runC16(w *mon.Worker) {
 	mon.SetMaxSleep(120 * time.Microsecond)
 	mon.SetProb(0.3, verifhook.OnceLock, verifhook.PromiseSetMid, verifhook.MemoMid)
-	for i := 0; i < w.Share(w.Scale(3200, 100000)); i++ {
+	for i := 0; i < w.Share(w.Scale(12000, 300000)); i++ {
 		w.Case("once", nil, onceCase)
 	}
-	for i := 0; i < w.Share(w.Scale(1600, 40000)); i++ {
+	for i := 0; i < w.Share(w.Scale(6000, 100000)); i++ {
 		w.Case("memo", nil, memoCase)
 	}
 	mon.ClearProb()
